@@ -1,5 +1,5 @@
 import Driver.Common
-import CdiModel.Watch
+import CdiModel.WatchMulti
 open Lean Cdi Cdi.Watch
 namespace Driver.Watch
 
@@ -37,6 +37,39 @@ def replay (c : Cfg) (ops : List String) (s : St) (locked : Bool) : St :=
         replay c rest (if locked then s1 else drain c 1000 s1) locked
       | none => replay c rest s locked
 
+/-! several directories: the shared machine of CdiModel/WatchMulti.lean -/
+open Cdi.WatchMulti in
+def mdrain (c : Cfg) (n : Nat) : Nat → MSt → MSt
+  | 0, s => s
+  | k + 1, s =>
+    match mstep c n s .scan with
+    | some s' => mdrain c n k s'
+    | none => match mstep c n s .watcherTake with
+      | some s' => mdrain c n k s'
+      | none => s
+
+/-- "op@i" ↦ (op, i) -/
+def splitAt (o : String) : String × Nat :=
+  match o.splitOn "@" with
+  | [b, i] => (b, i.toNat?.getD 0)
+  | _ => (o, 0)
+
+open Cdi.WatchMulti in
+def mreplay (c : Cfg) (n : Nat) (ops : List String) (s : MSt) (locked : Bool) : MSt :=
+  match ops with
+  | [] => mdrain c n 1000 s
+  | o :: rest =>
+    if o == "lock" then mreplay c n rest s true
+    else if o == "unlock" then mreplay c n rest (mdrain c n 1000 s) false
+    else if o == "pause" then mreplay c n rest (mdrain c n 1000 s) locked
+    else
+      let (b, i) := splitAt o
+      match fsOfName b with
+      | some f =>
+        let s1 := (mstep c n s (.fs i f)).getD s
+        mreplay c n rest (if locked then s1 else mdrain c n 1000 s1) locked
+      | none => mreplay c n rest s locked
+
 def handle : Handler := fun j => do
   let op ← (← j.getObjVal? "op").getStr?
   let obs ← getObj j "obs"
@@ -68,14 +101,21 @@ def handle : Handler := fun j => do
     let start ← getBool j "dirAtStart"
     let converged ← getBool obs "converged"
     let p ← getBool obs "panic"
-    let final := queryNow repaired (replay repaired applied (init start) false)
-    let pinnedFinal := queryNow pinned (replay pinned applied (init start) false)
+    let nd := match j.getObjVal? "ndirs" with | .ok v => (v.getNat?.toOption.getD 0) | _ => 0
+    -- one directory: the single-directory machine; several: the shared machine, every directory fresh
+    let multiStale (c : Cfg) : Bool :=
+      let s := WatchMulti.mqueryNow c nd (mreplay c nd applied (WatchMulti.minit (fun _ => start)) false)
+      (List.range nd).any (fun d => (s.dir d).stale)
+    let final : St := if nd ≥ 2 then { init start with stale := multiStale repaired }
+      else queryNow repaired (replay repaired applied (init start) false)
+    let pinnedFinal : St := if nd ≥ 2 then { init start with stale := multiStale pinned }
+      else queryNow pinned (replay pinned applied (init start) false)
     let judge : Option String :=
       if p then some "panic"
       else if converged then none else some "cache-did-not-converge-to-the-directory-content"
     pure (verdict (converged == !final.stale) judge (Json.bool (!final.stale))
       ([s!"len{min applied.length 8}"] ++ (if pinnedFinal.stale then ["pinned-model-would-stay-stale"] else []) ++
-       (if applied.contains "lock" then ["controlled-pacing"] else []) ++
+       (if applied.contains "lock" then ["controlled-pacing"] else []) ++ (if nd ≥ 2 then [s!"dirs{nd}"] else []) ++
        (if applied.contains "rmdir" then ["dir-removed"] else []) ++ (if !start then ["dir-missing-at-start"] else [])))
   | _ => throw s!"watch: unknown op {op}"
 
